@@ -95,6 +95,9 @@ def write_struct_ident(value: Any) -> bytes:
 def write_struct_uvari(value: int) -> bytes:
     """Convert an integer to bytes. The format (USHORT/UNORM/ULONG) is chosen depending on the provided value."""
 
+    if isinstance(value, Integral):
+        value = int(value)  # (the offsets added below must not wrap around in the width of a numpy integer)
+
     if value < 128:
         return RepresentationCode.USHORT.convert(value)
 
